@@ -543,7 +543,7 @@ func runC19Case(c *Ctx, idx int) *CaseResult {
 func init() {
 	register(&Check{
 		ID: "C19", Level: "exploration",
-		Rule: "direct part, exhaustive over a finite domain: every ordered pair of the 12 numeric kinds x {plain, behind pointer, in interface, pointer to pointer, pointer to interface, interface holding a pointer} x 36 boundary values (0, +-1, +-0.5, +-1.25, every width limit <= MaxInt64, 2^24, 2^24+1, 0.1 as float64 and as float32, 2^53-1, 2^53, 2^53+1, MaxInt64, MinInt64) that are exactly representable in both kinds (float pairs: exactly representable as float64), strings (empty, prefixes, case, non-ASCII, NUL, invalid UTF-8), booleans (== and != only), times (same instant in 4 locations, +-1ns, zero, with/without monotonic reading, years 1, 1600, 2300, 9999), each with all 6 operators, the mirrored call and the exact mathematical order as value-determinism oracle; GRL part: seeded sample of numeric kind/value pairs through conditions over typed fact fields (also via *int64 and interface{} fields), plus string and time pairs (every eighth case); non-trivial = pairs of different kinds / wrappings / locations",
+		Rule: "direct part, exhaustive over a finite domain: every ordered pair of the 12 numeric kinds x {plain, behind pointer, in interface, pointer to pointer, pointer to interface, interface holding a pointer} x 36 boundary values (0, +-1, +-0.5, +-1.25, every width limit <= MaxInt64, 2^24, 2^24+1, 0.1 as float64 and as float32, 2^53-1, 2^53, 2^53+1, MaxInt64, MinInt64) that are exactly representable in both kinds (float pairs: exactly representable as float64), strings (empty, prefixes, case, non-ASCII, NUL, invalid UTF-8), booleans (== and != only), times (same instant in 4 locations, +-1ns, zero, with/without monotonic reading, years 1, 1600, 2300, 9999), each with all 6 operators, the mirrored call and the exact mathematical order as value-determinism oracle; GRL part: seeded sample of numeric kind/value pairs through conditions over typed fact fields (also via *int64 and interface{} fields), plus string and time pairs (every eighth case); non-trivial = pairs of different kinds / wrappings / locations; negative zero in all wrappings; integers beyond 2^53 next to floats judged for mutual consistency only; the GRL part puts L op R, the mirrored R mop L and the swapped R op L into ONE knowledge base, every sixth case with the same wrapping (two pointers / two interfaces) on both sides",
 		Assume: []string{"NaN excluded", "unsigned values beyond MaxInt64 excluded (the property bounds the domain to the int64 range)"},
 		Cases:  tierN(4000, 100000),
 		Run:    runC19Case,
